@@ -256,12 +256,16 @@ func (e *Engine) checkComputedSubjectSet(
 		WithField("computed subjectSet relation", subjectSet.Relation).
 		Trace("check computed subjectSet")
 
+	// Following a computed subject set costs one level of depth, as it does on
+	// the union path (see checkSubjectSetRewrite). Without that, a permission
+	// that refers to itself below an intersection or exclusion would recurse
+	// without bound while the check is being constructed.
 	return e.checkIsAllowed(ctx, &relationTuple{
 		Namespace: r.Namespace,
 		Object:    r.Object,
 		Relation:  subjectSet.Relation,
 		Subject:   r.Subject,
-	}, restDepth, false)
+	}, restDepth-1, false)
 }
 
 // checkTupleToSubjectSet rewrites the relation tuple to use the subject-set relation.
